@@ -9,8 +9,8 @@ import (
 
 func init() {
 	register(&propDef{
-		id:  "C13",
-		run: runC13,
+		id:          "C13",
+		run:         runC13,
 		explanation: "Static analysis of the sorted-table code: (1) the checksum gate of the block reader and the plumbing of the verification flag (every caller passes true or the reader's flag; meta/index/filter blocks always verified); (2) entry decoding gates — block.entry hands out a key/value only when the offset is inside the entry area, all three length varints decoded and the entry ends inside the entry area; the block iterator turns an entry error into a corruption error before touching key/value; (3) index keys — separator/successor from the comparer, falling back to the full last key exactly when it returns nil, recorded with the handle of the block just written; (4) writer/reader agreement on the block trailer (type byte position, checksummed range, trailer length), the footer layout and the format constants (sibling comparison); (5) the filter cannot hide keys (build/probe agreement and fail-open rules of C16); (6) comparer discipline in the table package; (7) prefix compression: a restart point is recorded exactly every restartInterval entries and only non-restart entries share a prefix. These are necessary conditions; round-trip under all layouts, range slicing, approximate offsets and behaviour on altered bytes beyond 'the gate is there' are NOT decided.",
 		notCovered:  "lookups, iteration, range slicing, approximate offsets over all sorted key sets; behaviour on altered bytes beyond the presence of the gates",
 		assumptions: []string{"snappy encode/decode round-trips", "comparer contract"},
